@@ -43,3 +43,40 @@ func HarnessC07_Amf0Enums() {
 	vAssert(len(s) > 0, "marker.String() returns a name for every value")
 	vReach("c07-amf0-enums")
 }
+
+// HarnessC07_Amf0Truncated: the encoding of a nested container cut at every offset never
+// crashes the decoder - the parent advances by the child's Size(), which must never exceed
+// what the child consumed.
+func HarnessC07_Amf0Truncated() {
+	kinds := []uint8{3, 8, 10}
+	leaf := func() *refVal {
+		switch vChoice(4) {
+		case 0:
+			return &refVal{kind: 5}
+		case 1:
+			return &refVal{kind: 1, b: true, tb: 1}
+		case 2:
+			return &refVal{kind: 0, num: 0x3ff0000000000000}
+		}
+		return &refVal{kind: 2, s: "s"}
+	}
+	inner := &refVal{kind: kinds[vChoice(3)], keys: []string{"k"}, vals: []*refVal{leaf()}}
+	outer := &refVal{kind: kinds[vChoice(3)], keys: []string{"a"}, vals: []*refVal{inner}}
+	if vChoice(2) == 1 {
+		outer.keys = append(outer.keys, "z")
+		outer.vals = append(outer.vals, leaf())
+	}
+	enc := refEncode(outer, true)
+	cut := vChoice(len(enc) + 1)
+	data := enc[:cut]
+	a, err := Discovery(data)
+	if err == nil {
+		if a.UnmarshalBinary(data) == nil {
+			_ = a.Size()
+			a.MarshalBinary()
+			vReach("c07-amf0-trunc-accepted")
+		}
+	}
+	vAssert(true, "decoder returned")
+	vReach("c07-amf0-trunc")
+}
